@@ -351,6 +351,65 @@ void long_list(std::uint64_t seed, int which)
    ctx().eval(hash_mix(0x10461157, std::uint64_t(which)));
 }
 
+// Position-reporting containers given successive lifetimes in ONE storage (what a recycled heap block or a re-used stack slot
+// does by itself): the members of the container that lives there now are numbered from zero, at its own level, in its own
+// region, whatever the container that lived there before held.  Mappings, lambdas, enumerations and classes; interleaved so
+// that the last list added to before a container dies is the one that died.
+void successive_lifetimes(std::uint64_t seed)
+{
+   Rng rng(seed);
+   impl::Lexicon lex; impl::Translation_unit unit { lex };
+   const Lexicon& L = lex; auto& greg = *unit.global_region();
+   auto* sub = greg.make_subregion();
+   alignas(64) static std::byte slot_m[sizeof(impl::Mapping)]; alignas(64) static std::byte slot_l[sizeof(impl::Lambda)];
+   alignas(64) static std::byte slot_e[sizeof(impl::Enum)]; alignas(64) static std::byte slot_c[sizeof(impl::Class)];
+   auto V = [&](const std::string& what, const std::string& msg, int life, std::size_t i) { ctx().viol("successive-lifetimes:" + what, msg, J().n("lifetime", life).n("index", (long long)i).str()); };
+   std::vector<const Name*> ids; for (int i = 0; i < 12; ++i) ids.push_back(&lex.get_identifier(widen("sl" + std::to_string(i))));
+   for (int life = 0; life < 8; ++life) {
+      const Region& where = life % 2 ? static_cast<const Region&>(*sub) : static_cast<const Region&>(greg);
+      const std::size_t k = 1 + rng.below(9);
+      const Mapping_level lvl { std::size_t(life % 3) };
+      {  auto* m = std::construct_at(reinterpret_cast<impl::Mapping*>(slot_m), where, lvl);
+         for (std::size_t i = 0; i < k; ++i) {
+            auto* p = m->param(*ids[i], L.int_type());
+            if (std::size_t(p->position()) != i) { V("parameter:position", "parameter " + std::to_string(i) + " of a mapping built where an earlier mapping lived reports position " + std::to_string(std::size_t(p->position())), life, i); break; }
+            if (p->level() != lvl) V("parameter:level", "a parameter of a mapping built where an earlier mapping lived reports another level than its list", life, i);
+            if (&p->home_region() != &m->parameters().region()) V("parameter:home-region", "a parameter of a mapping built where an earlier mapping lived does not report the region of its list", life, i);
+         }
+         if (m->parameters().size() != k) V("parameter:size", "a parameter list built where an earlier one lived reports " + std::to_string(m->parameters().size()) + " members, " + std::to_string(k) + " were added", life, k);
+         if (&m->parameters().region().enclosing() != &where) V("parameter:enclosing", "the parameter region of a mapping built where an earlier mapping lived is not enclosed by the region it was created in", life, 0);
+         ctx().count("containers_built_where_an_earlier_one_lived");
+         std::destroy_at(m); }
+      {  auto* m = std::construct_at(reinterpret_cast<impl::Lambda*>(slot_l), where, lvl);
+         for (std::size_t i = 0; i < k; ++i) {
+            auto* p = m->inputs.add_member(*ids[i], L.int_type());
+            if (std::size_t(p->position()) != i) { V("lambda-parameter:position", "parameter " + std::to_string(i) + " of a lambda built where an earlier lambda lived reports position " + std::to_string(std::size_t(p->position())), life, i); break; }
+            if (p->level() != lvl) V("lambda-parameter:level", "a parameter of a lambda built where an earlier lambda lived reports another level than its list", life, i);
+         }
+         ctx().count("containers_built_where_an_earlier_one_lived");
+         std::destroy_at(m); }
+      {  auto* e = std::construct_at(reinterpret_cast<impl::Enum*>(slot_e), where, Enum::Kind::Scoped);
+         for (std::size_t i = 0; i < k + 2; ++i) {
+            auto* en = e->add_member(*ids[i]);
+            if (std::size_t(en->position()) != i) { V("enumerator:position", "enumerator " + std::to_string(i) + " of an enumeration built where an earlier one lived reports position " + std::to_string(std::size_t(en->position())), life, i); break; }
+            if (&en->home_region() != &e->region()) V("enumerator:home-region", "an enumerator of an enumeration built where an earlier one lived does not report its enumeration's region", life, i);
+         }
+         if (!e->region().owner().is_valid() || &e->region().owner().get() != static_cast<const Expr*>(e)) V("enum:owner", "the region of an enumeration built where an earlier one lived does not name it as owner", life, 0);
+         ctx().count("containers_built_where_an_earlier_one_lived");
+         std::destroy_at(e); }
+      {  auto* c = std::construct_at(reinterpret_cast<impl::Class*>(slot_c), where);
+         for (std::size_t i = 0; i < k + 1; ++i) {
+            auto* b = c->declare_base(i % 2 ? L.int_type() : L.char_type());
+            if (std::size_t(b->position()) != i) { V("base:position", "base " + std::to_string(i) + " of a class built where an earlier class lived reports position " + std::to_string(std::size_t(b->position())), life, i); break; }
+         }
+         if (!c->region().owner().is_valid() || &c->region().owner().get() != static_cast<const Expr*>(c)) V("class:owner", "the region of a class built where an earlier one lived does not name it as owner", life, 0);
+         if (&c->region().enclosing() != &where) V("class:enclosing", "the region of a class built where an earlier one lived is not enclosed by the region it was created in", life, 0);
+         ctx().count("containers_built_where_an_earlier_one_lived");
+         std::destroy_at(c); }
+      ctx().eval(hash_mix(0x5ccE55, std::uint64_t(life) * 16 + k));
+   }
+}
+
 // nesting levels at and beyond the widths a narrow field could hold
 void wide_levels(std::uint64_t seed)
 {
@@ -385,8 +444,9 @@ static void body(Ctx& C)
    for (int i = 0; i < (C.thorough ? 12 : 2); ++i) chain(seeds.next(), C.thorough ? 2000 : 400);
    // one long list per worker (quadratic to build: a parameter or base list of 65 600 members costs 10-20 s)
    wide_levels(seeds.next());
+   for (int i = 0; i < (C.thorough ? 40 : 3); ++i) successive_lifetimes(seeds.next());
    if (C.worker < 4 || C.thorough) long_list(seeds.next(), C.worker % 4);
-   for (auto k : { "namespaces_named_by_the_empty_identifier", "long_lists", "wide_levels_checked", "long_list_members_checked:parameter", "long_list_members_checked:enumerator", "long_list_members_checked:base", "long_list_members_checked:lambda-parameter" }) C.need(k);
+   for (auto k : { "namespaces_named_by_the_empty_identifier", "long_lists", "wide_levels_checked", "containers_built_where_an_earlier_one_lived", "long_list_members_checked:parameter", "long_list_members_checked:enumerator", "long_list_members_checked:base", "long_list_members_checked:lambda-parameter" }) C.need(k);
 }
 
 int main(int argc, char** argv) { return guarded_main(argc, argv, body); }
